@@ -9,8 +9,19 @@ import (
 	"fmt"
 	"math/rand/v2"
 	"runtime"
+	"sync/atomic"
 	"time"
 )
+
+// verifHoldNs: when > 0 every verifYield call sleeps that long (group timerpop of C34: keeps the poller of
+// PopWithTimer between its ticker wake-up and the delivery of its result while the caller's timer expires).
+var verifHoldNs atomic.Int64
+
+// VerifSetHold sets the sleep applied at every instrumented map / heap access (0 = off).
+func VerifSetHold(d time.Duration) { verifHoldNs.Store(int64(d)) }
+
+// VerifSetPollInterval shortens the polling interval of PopWithTimer (configuration only).
+func (spq *PriorityQueue) VerifSetPollInterval(d time.Duration) { spq.pollInterval = d }
 
 // verifYieldPct: see the twin file in lib/utils/lru-cache (plain variable on
 // purpose, written only while no worker runs).
@@ -23,6 +34,9 @@ func VerifSetYield(pct int) { verifYieldPct = pct }
 // verifYield is inserted at build time (engine.json "instrument") in front of
 // the map / heap accesses of a COPY of priority_queue.go.
 func verifYield() {
+	if h := verifHoldNs.Load(); h > 0 {
+		time.Sleep(time.Duration(h))
+	}
 	p := verifYieldPct
 	if p <= 0 {
 		return
